@@ -73,10 +73,14 @@ package db
 //@ pred isCurrentChannels(sd *SyncData, S base.Set) bool
 //@   is S != nil && (forall c string :: {c in S} (c in S) <==> activeChannel(sd, c)) && (len(S) == 0 <==> (forall c string :: {c in sd.Channels} !activeChannel(sd, c)))
 
+// Frame: no modifies clause. The only write is ch.Add(...) on the set made by base.SetOf() at the top of the function
+// (fresh by SetOf's contract, kept by invariant[fresh], exported as ensures[fresh]); the syntactic frame report
+// still lists the base.Set components because it does not look through the callee contract's elems(set) to see
+// that the argument is fresh (FRAME-GAP explained, not a gap).
 //@ func SyncData.getCurrentChannels
 //@   requires sd != nil
 //@   ensures[current] isCurrentChannels(sd, result)
-//@   ensures[fresh]   !old(allocated(result))
+//@   ensures[fresh]   result != nil && !old(allocated(now(result)))   // the only map written is the one made here
 //@   loop 1 invariant[fresh]   ch != nil && !old(allocated(ch))
 //@   loop 1 invariant[members] forall c string :: {c in ch} (c in ch) <==> (c in #visited) && activeChannel(sd, c)
 //@   loop 1 invariant[count]   len(ch) >= 0 && (len(ch) == 0 <==> (forall c string :: {c in #visited} !((c in #visited) && activeChannel(sd, c))))
@@ -139,7 +143,7 @@ package db
 //@ func DatabaseCollectionWithUser.get1xRevFromDoc
 //@   requires db != nil && db.DatabaseCollection != nil && colUserWF(db) && doc != nil && treeWF(doc.History)
 //@   requires[rev-channels-known] revChannelsKnown(doc, revid) || !(revid in doc.History)
-//@   modifies *
+//@   modifies RevInfo.Body, doc._rawBody, unbox(db.user, *auth.userImpl).roles, unbox(db.user, *auth.userImpl).deletedRoles
 //@   before[body-only-if-authorised] call getRevision#1 db.user == nil || !($3 in doc.History) || revAuth(db, doc, $3)
 
 // Loading a document from the bucket (storage read, on-demand import). TRUSTED, thin: whatever is loaded has a
